@@ -7,6 +7,10 @@ translate (tx/tx_c01.py: default_content_types, part-class map, accepted main ty
    opened with pptx.opc.package.OpcPackage.open and saved; loaded graph, saved members,
    content types, decoded rels, payloads and second-save identity against the extracted
    model (coq/extract/run_c01); every corpus deck likewise.
+   codec: the concrete codec of model/OpcCodec.v (proofs/OpcCodec_proofs.v: dec (enc l) = Some l
+   for every list of XML strings) against lxml: the text _Relationships.xml / serialize_part_xml
+   of CT_Types really write, and what _Relationships.load_from_xml / _ContentTypeMap.from_xml
+   read back from those bytes, on generated relationship lists and content-type tables.
 -> oracle: the property's statement evaluated on the saved bytes with an independent
    reading of OPC (zipfile + lxml + posixpath), no model involved.
 """
@@ -19,16 +23,17 @@ import shutil
 import tempfile
 
 from checks import opc_common as oc
-from corr.harness import COQ, REPO, VERIF, _run, coq_build, run_model
+from corr.harness import COQ, REPO, VERIF, _run, coq_build, dec, run_model
 
 TB = [
     "tx/tx_c01.py (transcribes opc/spec.py default_content_types, the content-type -> part-class map after import pptx, the initial defaults of _ContentTypesItem, api._is_pptx_package and the main-part relationship type; fail-closed via `unmodelled`)",
     "zipfile (member list and bytes; a duplicated member name resolves to its last entry), os.path / open for the directory form, lxml parse and serialise of [Content_Types].xml, rels items and XML payloads: modelled structurally (env fields dec/enc/reser), tied by this correspondence",
     "checks/opc_common.py: independent OPC writer/reader used to build inputs and to decode outputs",
     "model/PackUri.v for part-name arithmetic (C19)",
+    "model/OpcCodec.v: text-level writer and reader of the rels item and the content types item (attribute values through sax_escape_qw / lex_attr of model/Escape.v, C05), tied to lxml by the codec phase of this check (byte-for-byte on what _Relationships.xml / serialize_part_xml write, and on what load_from_xml / _ContentTypeMap.from_xml read back); UTF-8 between bytes and code points is Python's codec",
 ]
 ASSUME = [
-    "dec_rels (enc_rels l) = Some l, dec_ct (enc_ct c) = Some c, reser idempotent: premises of the theorems (codec_ok), observed on every generated package (second-save byte identity)",
+    "dec_rels (enc_rels l) = Some l, dec_ct (enc_ct c) = Some c, reser idempotent: premises of the abstract-env theorems (codec_ok), observed on every generated package (second-save byte identity); the first two are PROVED for the concrete codec of model/OpcCodec.v on every list / table of XML-character strings (proofs/OpcCodec_proofs.v dec_enc_rels, dec_enc_ct) and the theorems are re-proved under that restricted hypothesis (c01_rels_xml, c01_payload_type_xml, c01_idem_xml); codec_ok itself, quantified over all lists, is refuted for any XML reader (codec_ok_too_strong); reser idempotent stays a premise of the second-save theorem only",
     "str.lower / str.isdigit are modelled on ASCII only; generated names flip the case of ASCII letters only and relationship ids use ASCII digits",
     "a relationship target that names [Content_Types].xml or a rels item, and member names that are not normalised part names, are outside wf (the writer would emit a duplicated zip member)",
     "Python recursion depth (about 1000 frames) is not modelled: the model's fuel always suffices, the implementation raises RecursionError on relationship chains several hundred parts deep",
@@ -184,6 +189,217 @@ def compare(model, r, pay):
     return d
 
 
+# ----------------------------------------------------------------------------- concrete codec
+# characters the generated attribute values are drawn from: the five markup characters, the
+# three white-space controls, blanks, ASCII, DEL and C1 controls, line/paragraph separators,
+# the ends of the XML Char ranges, beyond-BMP characters; pieces that look like references
+CODEC_CHARS = ["&", "<", ">", '"', "'", "\t", "\n", "\r", " ", "a", "Z", "0", "/", ".", ";", "#", "]", "=",
+               "\x7f", "\x85", "\xa0", "\xe9", "\u2028", "\u2029", "\ud7ff", "\ue000", "\ufffd",
+               "\U00010000", "\U0001f600", "\U0010ffff"]
+CODEC_WORDS = ["&amp;", "&#10;", "&#x9;", "]]>", "<!--", "<![CDATA[", "\r\n", "External", "Internal",
+               "http://schemas.openxmlformats.org/officeDocument/2006/relationships/slide",
+               "../slides/slide1.xml", "/ppt/media/image1.png", "rId"]
+
+
+def codec_str(rng, plain=False):
+    k = rng.random()
+    if k < 0.12:
+        return ""
+    if plain or k < 0.3:
+        return rng.choice(CODEC_WORDS[7:])
+    out = []
+    for _ in range(rng.randint(1, 12)):
+        out.append(rng.choice(CODEC_WORDS) if rng.random() < 0.15 else rng.choice(CODEC_CHARS))
+    return "".join(out)
+
+
+def gen_codec_rels(rng):
+    """0..40 relationships with distinct ids (the collection is keyed by rId)."""
+    n = rng.choice([0, 1, 1, 2, 3, 5, 8, 13, 21, 40]) if rng.random() < 0.7 else rng.randint(0, 40)
+    rels, seen = [], set()
+    for i in range(n):
+        rid = "rId%d" % rng.randint(1, 60) if rng.random() < 0.6 else codec_str(rng)
+        while rid in seen:
+            rid += rng.choice(CODEC_CHARS)
+        seen.add(rid)
+        rels.append((rid, codec_str(rng), codec_str(rng), rng.random() < 0.4))
+    return rels
+
+
+class _StubName(object):
+    """stands for the PackURI of a target part: relative_ref gives the wanted reference text"""
+
+    def __init__(self, ref):
+        self._ref = ref
+
+    def relative_ref(self, base_uri):
+        return self._ref
+
+
+class _AnyParts(dict):
+    """a parts mapping in which every partname is present"""
+
+    def __contains__(self, key):
+        return True
+
+    def __missing__(self, key):
+        from pptx.opc.package import Part
+        self[key] = Part(key, "application/x-stub", None)
+        return self[key]
+
+
+def impl_rels_text(rels):
+    """the bytes _Relationships.xml writes for these relationships, and the order written"""
+    from pptx.opc.constants import RELATIONSHIP_TARGET_MODE as RTM
+    from pptx.opc.package import Part, _Relationship, _Relationships
+    coll = _Relationships("/")
+    for rid, rtype, target, ext in rels:
+        tgt = target if ext else Part(_StubName(target), "application/x-stub", None)
+        coll._rels[rid] = _Relationship("/", rid, rtype, RTM.EXTERNAL if ext else RTM.INTERNAL, tgt)
+    written = sorted(rels, key=lambda r: (int(r[0][3:]) if r[0].startswith("rId") and r[0][3:].isdigit() else 0, r[0]))
+    return coll.xml, written
+
+
+def impl_rels_read(data):
+    """what the loader reads from a rels item: the element attributes it consults, and the
+    collection _Relationships.load_from_xml builds from them (targets resolved against /)"""
+    from pptx.opc.constants import RELATIONSHIP_TARGET_MODE as RTM
+    from pptx.opc.package import _Relationships
+    from pptx.oxml import parse_xml
+    elm = parse_xml(data)
+    raw = [(r.rId, r.reltype, r.target_ref, r.targetMode) for r in elm.relationship_lst]
+    coll = _Relationships("/")
+    coll.load_from_xml("/", elm, _AnyParts())
+    loaded = [(rid, rel.reltype, rel.is_external,
+               rel._target if rel.is_external else str(rel._target.partname)) for rid, rel in coll.items()]
+    return raw, loaded
+
+
+def impl_ct_text(ds, os_):
+    from pptx.opc.oxml import CT_Types, serialize_part_xml
+    t = CT_Types.new()
+    for a, b in ds:
+        t.add_default(a, b)
+    for a, b in os_:
+        t.add_override(a, b)
+    return serialize_part_xml(t)
+
+
+def impl_ct_read(data):
+    from pptx.opc.package import _ContentTypeMap
+    from pptx.oxml import parse_xml
+    elm = parse_xml(data)
+    raw = ([(d.extension, d.contentType) for d in elm.default_lst],
+           [(o.partName, o.contentType) for o in elm.override_lst])
+    m = _ContentTypeMap.from_xml(data)
+    return raw, (dict(m._defaults), dict(m._overrides))
+
+
+def codec_rels_case(rels):
+    """(model cases, judge) for one relationship list"""
+    data, written = impl_rels_text(rels)
+    text = data.decode("utf-8")
+    raw, loaded = impl_rels_read(data)
+    enc_case = ["encrels", str(len(written))]
+    for rid, rtype, target, ext in written:
+        enc_case += [rid, rtype, target, "1" if ext else "0"]
+
+    def judge(enc_line, dec_line):
+        from pptx.opc.packuri import PackURI
+        d = []
+        mtext = dec(enc_line)
+        if mtext != text:
+            i = next((j for j, (x, y) in enumerate(zip(mtext, text)) if x != y), min(len(mtext), len(text)))
+            d.append("written text differs at %d: model %r lxml %r" % (i, mtext[max(0, i - 20):i + 30], text[max(0, i - 20):i + 30]))
+        if dec_line == "none":
+            d.append("model reader refuses lxml's own output")
+            return d
+        cur = oc.Cursor(dec_line.split("|"))
+        got = [(cur.s(), cur.s(), cur.s(), cur.raw()) for _ in range(cur.n())]
+        want = [(a, b, c, oc.MODE_CODE.get(m, "2")) for a, b, c, m in raw]
+        if got != want:
+            d.append("attributes read: model %r lxml %r" % (got[:3], want[:3]))
+        mload = [(a, b, m == "1", c if m == "1" else str(PackURI.from_rel_ref("/", c))) for a, b, c, m in got]
+        if mload != loaded:
+            d.append("load_from_xml: model %r impl %r" % (mload[:3], loaded[:3]))
+        if [(a, b, c, "1" if e else "0") for a, b, c, e in written] != got:
+            d.append("round trip through lxml changed the list: %r -> %r" % (written[:3], got[:3]))
+        return d
+
+    return enc_case, ["decrels", text], judge
+
+
+def codec_ct_case(ds, os_):
+    data = impl_ct_text(ds, os_)
+    text = data.decode("utf-8")
+    raw, maps = impl_ct_read(data)
+    enc_case = ["encct", str(len(ds))] + [x for kv in ds for x in kv] + [str(len(os_))] + [x for kv in os_ for x in kv]
+
+    def judge(enc_line, dec_line):
+        d = []
+        mtext = dec(enc_line)
+        if mtext != text:
+            i = next((j for j, (x, y) in enumerate(zip(mtext, text)) if x != y), min(len(mtext), len(text)))
+            d.append("written text differs at %d: model %r lxml %r" % (i, mtext[max(0, i - 20):i + 30], text[max(0, i - 20):i + 30]))
+        if dec_line == "none":
+            d.append("model reader refuses lxml's own output")
+            return d
+        cur = oc.Cursor(dec_line.split("|"))
+        gd = [(cur.s(), cur.s()) for _ in range(cur.n())]
+        go = [(cur.s(), cur.s()) for _ in range(cur.n())]
+        if (gd, go) != raw:
+            d.append("attributes read: model %r lxml %r" % ((gd[:3], go[:3]), (raw[0][:3], raw[1][:3])))
+        if (dict((k.lower(), v) for k, v in gd), dict((k.lower(), v) for k, v in go)) != maps:
+            d.append("_ContentTypeMap.from_xml: model %r impl %r" % ((gd[:3], go[:3]), maps))
+        if (gd, go) != (list(ds), list(os_)):
+            d.append("round trip through lxml changed the table")
+        return d
+
+    return enc_case, ["decct", text], judge
+
+
+def codec_phase(ck, tier, rng):
+    """model/OpcCodec.v against lxml as python-pptx drives it.  Returns the number of diffs."""
+    n_rels = 1500 if tier == "quick" else 15000
+    n_ct = 300 if tier == "quick" else 3000
+    cases, judges, inputs = [], [], []
+    for _ in range(n_rels):
+        rels = gen_codec_rels(rng)
+        e, d_, j = codec_rels_case(rels)
+        cases += [e, d_]
+        judges.append(j)
+        inputs.append({"codec": "rels", "rels": [list(r) for r in rels]})
+        ck.count(("codec-rels", rels), any(c in f for r in rels for f in r[:3] for c in "&<>\"\t\n\r"), "codec")
+    for _ in range(n_ct):
+        ds = [(codec_str(rng), codec_str(rng)) for _ in range(rng.randint(0, 6))]
+        os_ = [(codec_str(rng), codec_str(rng)) for _ in range(rng.randint(0, 12))]
+        e, d_, j = codec_ct_case(ds, os_)
+        cases += [e, d_]
+        judges.append(j)
+        inputs.append({"codec": "ct", "defaults": [list(x) for x in ds], "overrides": [list(x) for x in os_]})
+        ck.count(("codec-ct", ds, os_), bool(ds or os_), "codec")
+    diffs, first = 0, None
+    if ck.build.ok:
+        out = run_model("C01", cases)
+        for i, j in enumerate(judges):
+            d = j(out[2 * i], out[2 * i + 1])
+            if d:
+                diffs += 1
+                if first is None:
+                    first = (inputs[i], d[:3])
+                if diffs <= 5:
+                    ck.notes.append("codec diff %s: %s" % (inputs[i]["codec"], d[:2]))
+        if diffs and first is not None:
+            ck.violation("correspondence-codec",
+                         "model/OpcCodec.v and lxml (as driven by opc/package.py, opc/oxml.py) disagree on %d of %d documents, e.g. %s" % (
+                             diffs, len(judges), first[1]),
+                         {"entry_point": "pptx.opc.package._Relationships.xml / load_from_xml; pptx.opc.oxml.CT_Types + serialize_part_xml; _ContentTypeMap.from_xml",
+                          "input": first[0],
+                          "theorem_or_correspondence": "correspondence OpcCodec.v ~ lxml serialiser / parser (theorems C01_codec_* are about the model only)"},
+                         concrete=False)
+    return diffs, len(judges)
+
+
 def run(ck, tier, rng):
     rc, out = _run(["/venv/bin/python", os.path.join(VERIF, "tx", "tx_c01.py")], cwd=VERIF)
     if rc != 0:
@@ -262,18 +478,35 @@ def run(ck, tier, rng):
                                  diffs, first[0], first[1], first[2]),
                              dict(rec_for(first[3], first[1]), theorem_or_correspondence="correspondence Opc.v ~ opc/package.py + opc/serialized.py (theorems C01_* are about the model only)"),
                              concrete=False)
+        codec_diffs, codec_docs = codec_phase(ck, tier, rng)
         ck.broken_build(oracle_found_concrete=any(v["concrete"] for v in ck.violations))
     finally:
         shutil.rmtree(tmp, ignore_errors=True)
     return ck.finish(
         rule="%d generated packages (4 of 5 well-formed: cycles, shared targets, several rels to one part, external links, ../ ./ and root-absolute targets, directory depth 0-5, Default/Override mixes with case-flipped extensions and part names, parts sharing an extension but not a type, binary and XML payloads; 1 of 5 carrying one malformation for model fidelity only) delivered as stream / zip path / directory, plus %d corpus decks; non-trivial = well-formed package with at least 2 reachable parts, or a corpus deck" % (n_pk, len(decks)),
         trusted_base=TB, assumptions=ASSUME,
-        extra={"correspondence_diffs": diffs, "exhaustive": False, "unmodelled": meta.get("unmodelled", []),
+        extra={"correspondence_diffs": diffs, "codec_documents": codec_docs, "codec_diffs": codec_diffs, "exhaustive": False, "unmodelled": meta.get("unmodelled", []),
                "theorem_hypotheses_on_inputs": dict(hyp, **covered)},
     )
 
 
+def replay_codec(inp):
+    if inp["codec"] == "rels":
+        e, d_, j = codec_rels_case([tuple(r) for r in inp["rels"]])
+    else:
+        e, d_, j = codec_ct_case([tuple(x) for x in inp["defaults"]], [tuple(x) for x in inp["overrides"]])
+    out = run_model("C01", [e, d_])
+    print("lxml text :", repr(d_[1]))
+    print("model text:", repr(dec(out[0])))
+    print("model read:", out[1][:400])
+    d = j(out[0], out[1])
+    print("model/impl differences:", d)
+    return 0 if not d else 1
+
+
 def replay(rec):
+    if "codec" in rec["input"]:
+        return replay_codec(rec["input"])
     members = [(n, base64.b64decode(b)) for n, b in rec["input"]["members_b64"]]
     form = rec["input"].get("form", "stream")
     tmp = tempfile.mkdtemp(prefix="c01-replay-")
